@@ -71,6 +71,15 @@ pub fn gen_plan(seed: u64, index: usize, _tier: Tier) -> Plan {
     k.stream_recv_window = *rng.pick(&[4096u64, 16384, 65536]);
     k.recv_window = k.stream_recv_window * *rng.pick(&[1u64, 2, 8]);
     let server_under_test = index % 2 == 0;
+    // one run in twelve: the endpoint under test is built with the library's own default transport
+    // configuration and one accepted stream is left unread with a whole default stream window
+    // (1.25 MB) of data in it
+    let defaults = rng.chance_pm(80);
+    if defaults {
+        k.library_defaults = true;
+        k.stream_recv_window = 1_250_000;
+        k.recv_window = u64::MAX >> 2;
+    }
     let nstalled = match rng.below(8) {
         0 | 1 | 2 => 1,
         3 => 2,
@@ -96,7 +105,10 @@ pub fn gen_plan(seed: u64, index: usize, _tier: Tier) -> Plan {
         ]
     };
     let requests_pm = if server_under_test && rng.chance_pm(300) { 400 } else { 0 };
-    for _ in 0..nstalled {
+    if defaults {
+        ops.push(Op::Stalled { bidi: rng.coin(), pos: StallPos::AcceptedUnread, sid_len: 1 });
+    }
+    for _ in 0..(if defaults { nstalled.min(2) } else { nstalled }) {
         if rng.chance_pm(requests_pm) {
             ops.push(Op::Stalled { bidi: true, pos: if rng.chance_pm(700) { StallPos::ExtraRequest } else { StallPos::PartialRequest }, sid_len: 2 });
             continue;
@@ -285,7 +297,12 @@ async fn drive_raw(
     // unread data must stay well below the *connection* window, otherwise the stall is the
     // transport's legitimate connection-level flow control, not a stream dependency
     let n_unread = plan.ops.iter().filter(|o| matches!(o, Op::Stalled { pos: StallPos::AcceptedUnread, .. })).count().max(1);
-    let unread_each = window.min(plan.k.recv_window as usize / 2 / n_unread).min(3000);
+    let unread_each = if plan.k.library_defaults {
+        // the whole stream window of the library's default configuration, preamble included
+        window - 8
+    } else {
+        window.min(plan.k.recv_window as usize / 2 / n_unread).min(3000)
+    };
     for op in &plan.ops {
         match op {
             Op::Stalled { bidi, pos, sid_len } => {
@@ -307,9 +324,18 @@ async fn drive_raw(
                     }
                     StallPos::ExtraRequest | StallPos::PartialRequest => vec![],
                 };
+                // a bulk write may wait for credit for ever (that is the point): it runs in its own task
+                let bulk = bytes.len() > 100_000;
                 if *bidi {
                     let (mut s, r) = conn.open_bi().await.map_err(|e| format!("raw open_bi: {e:?}"))?;
                     out.stalled_desc.push(format!("bidi#{} {:?}", rp::sid(s.id()), pos));
+                    if bulk {
+                        out.keep.push(Box::new((tokio::spawn(async move {
+                            let _ = rp::write_all(&mut s, &bytes).await;
+                            std::future::pending::<()>().await;
+                        }), r)));
+                        continue;
+                    }
                     if !bytes.is_empty() {
                         rp::write_all(&mut s, &bytes).await?;
                     }
@@ -317,6 +343,13 @@ async fn drive_raw(
                 } else {
                     let mut s = conn.open_uni().await.map_err(|e| format!("raw open_uni: {e:?}"))?;
                     out.stalled_desc.push(format!("uni#{} {:?}", rp::sid(s.id()), pos));
+                    if bulk {
+                        out.keep.push(Box::new(tokio::spawn(async move {
+                            let _ = rp::write_all(&mut s, &bytes).await;
+                            std::future::pending::<()>().await;
+                        })));
+                        continue;
+                    }
                     if !bytes.is_empty() {
                         rp::write_all(&mut s, &bytes).await?;
                     }
@@ -603,7 +636,7 @@ pub fn def() -> PropertyDef {
     PropertyDef {
         id: "C07",
         scenarios: vec![Box::new(Typed(C07Raw))],
-        rule: "Each run: a scripted raw QUIC peer (client role against the real server on even indexes, server role against the real client on odd ones) opens 1-40 stalled streams (uni/bidi; no byte, first byte of the 2-byte type, type without session id, first byte of a 2/4/8-byte session id, complete preamble then silence, complete preamble plus unread data; against the server also further complete or half-written CONNECT requests left open) interleaved in generated order with 1-5 healthy WebTransport streams (tagged payloads 0..5000 B), datagrams, quiescence points and sleeps; then datagrams on a quiet network and a close capsule. The application keeps accepting streams; in a quarter of the runs it calls receive_datagram only after the healthy streams have been checked, so 2-5 datagrams sit unread meanwhile. Oracle (bounded liveness, no faults): every healthy stream accepted and read byte-exact within 30 s simulated, every late datagram received, all three pending calls report ApplicationClosed with the capsule's code within 30 s. Non-trivial = at least one stalled and one healthy stream in the run; distinct = distinct plan hashes.",
+        rule: "Each run: a scripted raw QUIC peer (client role against the real server on even indexes, server role against the real client on odd ones) opens 1-40 stalled streams (uni/bidi; no byte, first byte of the 2-byte type, type without session id, first byte of a 2/4/8-byte session id, complete preamble then silence, complete preamble plus unread data; against the server also further complete or half-written CONNECT requests left open) interleaved in generated order with 1-5 healthy WebTransport streams (tagged payloads 0..5000 B), datagrams, quiescence points and sleeps; then datagrams on a quiet network and a close capsule. The application keeps accepting streams; one run in twelve builds the endpoint with the library's default transport configuration and leaves a whole default stream window (1.25 MB) unread in one accepted stream; in a quarter of the runs it calls receive_datagram only after the healthy streams have been checked, so 2-5 datagrams sit unread meanwhile. Oracle (bounded liveness, no faults): every healthy stream accepted and read byte-exact within 30 s simulated, every late datagram received, all three pending calls report ApplicationClosed with the capsule's code within 30 s. Non-trivial = at least one stalled and one healthy stream in the run; distinct = distinct plan hashes.",
         assumptions: vec![
             "bounded liveness is judged on a fault-free simulated network after the script has finished",
             "the raw peer and reference codec are harness code (validated against RFC worked examples at start-up)",
